@@ -105,7 +105,9 @@ pub fn run(args: &[String]) {
       for z in zgrid(&mut rng, n) {
         let v = ap.integration_constant(z, l_ref);
         let vm = ap.integration_constant(-z, l_ref);
-        emit(json!({"kind": "win", "ap": apod_json(&ap), "z": fx(z), "L": fx(*(l_ref / M)), "v": fx(v), "vneg": fx(vm)}));
+        // the same window through the PeriodicPoling wrapper of a poled description
+        let vpp = PeriodicPoling::new(-10e-6 * M, ap.clone()).integration_constant(z, l_ref);
+        emit(json!({"kind": "win", "ap": apod_json(&ap), "z": fx(z), "L": fx(*(l_ref / M)), "v": fx(v), "vneg": fx(vm), "v_pp": fx(vpp)}));
       }
     }
   }
@@ -125,7 +127,8 @@ pub fn run(args: &[String]) {
     for z in zs {
       let v = ap.integration_constant(z, l * M);
       let vm = ap.integration_constant(-z, l * M);
-      emit(json!({"kind": "win", "ap": apod_json(&ap), "z": fx(z), "L": fx(l), "v": fx(v), "vneg": fx(vm),
+      let vpp = PeriodicPoling::new(33e-6 * M, ap.clone()).integration_constant(z, l * M);
+      emit(json!({"kind": "win", "ap": apod_json(&ap), "z": fx(z), "L": fx(l), "v": fx(v), "vneg": fx(vm), "v_pp": fx(vpp),
         "half_point": z == fwhm / l}));
     }
   }
@@ -150,7 +153,10 @@ pub fn run(args: &[String]) {
       for z in zs {
         let ap2 = ap.clone();
         match guarded(move || ap2.integration_constant(z, l_ref)) {
-          Ok(v) => emit(json!({"kind": "interp", "values": fxs(&values), "z": fx(z), "v": fx(v)})),
+          Ok(v) => {
+            let vpp = PeriodicPoling::new(7e-6 * M, ap.clone()).integration_constant(z, l_ref);
+            emit(json!({"kind": "interp", "values": fxs(&values), "z": fx(z), "v": fx(v), "v_pp": fx(vpp)}))
+          }
           Err(e) => emit(json!({"kind": "interp_panic", "values": fxs(&values), "z": fx(z), "msg": e})),
         }
       }
@@ -262,7 +268,7 @@ pub fn run(args: &[String]) {
   }
   // ---- count clause next to integer ratios: L = k * period * (1 +- e)
   for period in [10e-6, 46.5e-6, 7.3e-6] {
-    for k in [1usize, 7, 100, 12345] {
+    for k in [1usize, 7, 100, 12345, 123457, 250000] {
       for e in [3e-9, 1e-7, 3e-7, 9e-7, 0.] {
         for sgn in [1., -1.] {
           let l = (k as f64) * period * (1. + sgn * e);
@@ -300,6 +306,30 @@ pub fn run(args: &[String]) {
     "len_lengths": PeriodicPoling::Off.poling_domain_lengths(1e-3 * M).len()}));
 
   // ---- update histories
+  // environments for try_as_optimum: (signal, pump, crystal) of two setups and the period the optimiser returns for them
+  let mut envs: Vec<(SPDC, f64)> = Vec::new();
+  {
+    let d = SPDC::default();
+    let mut c = d.crystal_setup.clone();
+    c.theta = 90. * spdcalc::dim::ucum::DEG;
+    let mut e1 = d.clone();
+    e1.crystal_setup = c;
+    let cfg2 = json!({
+      "crystal": {"kind": "LiNbO3_1", "pm_type": "Type0_e_ee", "phi_deg": 0, "theta_deg": 90, "length_um": 5000, "temperature_c": 80},
+      "pump": {"wavelength_nm": 532, "waist_um": 60, "bandwidth_nm": 0.1, "average_power_mw": 50},
+      "signal": {"wavelength_nm": 810, "phi_deg": 0, "theta_deg": 0, "waist_um": 45, "waist_position_um": "auto"},
+      "idler": "auto", "deff_pm_per_volt": 14.0});
+    for e in [Some(e1), SPDC::from_json(cfg2.to_string()).ok()].into_iter().flatten() {
+      let e2 = e.clone();
+      if let Ok(Ok(p)) = guarded(move || optimum_poling_period(&e2.signal, &e2.pump, &e2.crystal_setup)) {
+        let pv = *(p / M);
+        if pv.is_finite() && pv != 0. {
+          envs.push((e, pv));
+        }
+      }
+    }
+  }
+  emit(json!({"kind": "optimum_envs", "periods": envs.iter().map(|e| fx(e.1)).collect::<Vec<_>>()}));
   for h in 0..(4 * n) {
     let start_off = h % 5 == 0;
     let mut pp = if start_off {
@@ -312,9 +342,21 @@ pub fn run(args: &[String]) {
     let init = observers(&pp);
     let nops = 1 + rng.below(8);
     for _ in 0..nops {
-      let op = rng.below(4);
+      let op = rng.below(if envs.is_empty() { 4 } else { 5 });
       let opj;
       match op {
+        4 => {
+          let (env, p) = &envs[rng.below(envs.len())];
+          match pp.clone().try_as_optimum(&env.signal, &env.pump, &env.crystal_setup) {
+            Ok(np) => {
+              pp = np;
+              opj = json!({"op": "as_optimum", "p": fx(*p)});
+            }
+            Err(_) => {
+              opj = json!({"op": "as_optimum_err"});
+            }
+          }
+        }
         0 => {
           let p = rng.log_range(1e-6, 100e-6) * if rng.coin() { 1. } else { -1. };
           pp = pp.with_period(p * M);
